@@ -116,6 +116,7 @@ def coqc_file(path, timeout=300):
 def coq_eval(name, text, timeout=300):
     """Compile a generated file .work/<name>.v against the built project; returns (rc, stdout)."""
     os.makedirs(WORK, exist_ok=True)
+    name = "%s_p%d" % (name, os.getpid())      # two checks running in the same tree must not share scratch files
     path = os.path.join(WORK, name + ".v")
     with open(path, "w") as f:
         f.write(text)
